@@ -1063,5 +1063,46 @@ theorem mixed_pair (r s : Region) (hr : wf r = true) (hs : wf s = true)
       simp only [fShared, h2r, h2s]; exact Iv.lt_asymm b2 a2 vb2 va2 h2
     rw [f1, f2]; simp
 
+/-- 1-D Helly for the `strict` test of `check_region`: all intervals of a non-empty well-formed
+    region overlap pairwise iff the latest start is not after the earliest end iff some cycle lies in
+    every interval (the column `straighten` aligns the region on) -/
+theorem strictOk_iff (r : Region) (hr : wf r = true) (hne : r ≠ []) :
+    (strictOk r = true ↔ maxL (r.map (·.2.lo)) ≤ minL (r.map (·.2.hi)))
+    ∧ (strictOk r = true ↔ ∃ c, ∀ p ∈ r, p.2.mem c = true) := by
+  have hv : ∀ p ∈ r, p.2.lo ≤ p.2.hi := by
+    intro p hp
+    simp only [wf, Bool.and_eq_true, List.all_eq_true] at hr
+    simpa [Iv.valid] using hr.2 p hp
+  have hlo : (r.map (·.2.lo)) ≠ [] := by simpa using hne
+  have hhi : (r.map (·.2.hi)) ≠ [] := by simpa using hne
+  have h1 : strictOk r = true ↔ maxL (r.map (·.2.lo)) ≤ minL (r.map (·.2.hi)) := by
+    simp only [strictOk, List.all_eq_true, Iv.overlaps, Bool.and_eq_true, decide_eq_true_eq]
+    constructor
+    · intro h
+      obtain ⟨x, hx, hxe⟩ := List.mem_map.1 (maxL_mem _ hlo)
+      obtain ⟨y, hy, hye⟩ := List.mem_map.1 (minL_mem _ hhi)
+      have := (h x hx y hy).1
+      omega
+    · intro h p hp p' hp'
+      have a1 := le_maxL (r.map (·.2.lo)) p.2.lo (List.mem_map.2 ⟨p, hp, rfl⟩)
+      have a2 := le_maxL (r.map (·.2.lo)) p'.2.lo (List.mem_map.2 ⟨p', hp', rfl⟩)
+      have b1 := minL_le (r.map (·.2.hi)) p.2.hi (List.mem_map.2 ⟨p, hp, rfl⟩)
+      have b2 := minL_le (r.map (·.2.hi)) p'.2.hi (List.mem_map.2 ⟨p', hp', rfl⟩)
+      omega
+  refine ⟨h1, ?_⟩
+  rw [h1]
+  constructor
+  · intro h
+    refine ⟨maxL (r.map (·.2.lo)), fun p hp => ?_⟩
+    have a1 := le_maxL (r.map (·.2.lo)) p.2.lo (List.mem_map.2 ⟨p, hp, rfl⟩)
+    have b1 := minL_le (r.map (·.2.hi)) p.2.hi (List.mem_map.2 ⟨p, hp, rfl⟩)
+    rw [Iv.mem_iff]; omega
+  · rintro ⟨c, hc⟩
+    obtain ⟨x, hx, hxe⟩ := List.mem_map.1 (maxL_mem _ hlo)
+    obtain ⟨y, hy, hye⟩ := List.mem_map.1 (minL_mem _ hhi)
+    have := (Iv.mem_iff _ _).1 (hc x hx)
+    have := (Iv.mem_iff _ _).1 (hc y hy)
+    omega
+
 end Region
 end BqVerif.Region
